@@ -7,6 +7,8 @@ export CARGO_NET_OFFLINE=true
 python3 orchestrator/translate/config.py /repo lean/PiciModel/PiciModel/Generated/Config.lean
 python3 orchestrator/translate/natives.py /repo lean/PiciModel/PiciModel/Generated/NativeTable.lean
 python3 orchestrator/translate/prelude.py /repo lean/PiciModel/PiciModel/Generated/Prelude.lean
+(cd lean/PiciModel && lake build picimodel)
+python3 orchestrator/translate/prelude_expanded.py lean/PiciModel/.lake/build/bin/picimodel /repo lean/PiciModel/PiciModel/Generated
 (cd lean/PiciModel && lake build PiciModel picimodel $(ls PiciModel/Props/*.lean | sed 's|/|.|g; s|\.lean$||'))
 mkdir -p .build
 (cd /repo && cargo rustc --bin picilisp --offline --target-dir /verif/.build/target -- --cfg picilisp_verif -C opt-level=2 -C debug-assertions=on -C overflow-checks=on)
